@@ -10,7 +10,7 @@
    Machine arithmetic is explicit: every C++ integer expression is evaluated in its C++ type
    ([ity]); a static_cast wraps ([cast]); unsigned arithmetic wraps; signed arithmetic whose
    mathematical result does not fit the type is the outcome [UB UBOverflow]; C++ `/` and `%` are
-   Z.quot / Z.rem.  The 32-byte text buffer is explicit (writes past its end are [UB UBBuffer],
+   Z.quot / Z.rem.  The 48-byte text buffer is explicit (writes past its end are [UB UBBuffer],
    snprintf returns the untruncated length).  No proofs in this file. *)
 From BS Require Import Base ChronoSpec UtfSpec UtfModel.
 Local Open Scope Z_scope.
@@ -172,11 +172,11 @@ Definition safe_cast (from to : dty) (c : Z) : outcome Z :=
       if negb (v =? cast op t) || sign_mismatch v t then Err OutOfRange else Ok t
   else
     if num =? 1 then
+      if is_signed sr && negb (is_signed tr) && (c <? 0) then Err OutOfRange else
       q <- cdiv op (cast op c) (cast op den) ;;
+      if negb (Z.rem (cast op c) (cast op den) =? 0) then Err OutOfRange else     (* count % den != 0 *)
       let v := cast tr q in
-      let mt := uac tr I64 in                       (* v * TDivRatio::den : TTargetRep * intmax_t *)
-      m <- arith mt (cast mt v * cast mt den) ;;
-      if negb (cast sr m =? c) then Err OutOfRange else Ok v
+      if negb (cast op v =? q) || sign_mismatch q v then Err OutOfRange else Ok v
     else
       let cc := cast op c in
       hi <- cdiv op (tmax op) (cast op num) ;;
@@ -275,7 +275,7 @@ Definition parse_second_fractions (l : list N) : option (Z * list N) :=
 
 (* ------------------------------------------------------------------ the text buffer and PrintSecondsFractions *)
 
-Definition BufSize : Z := 32.       (* UtcBufSize *)
+Definition BufSize : Z := 48.       (* UtcBufSize *)
 
 (* state of a writer into char buf[32]: pos = offset of the write pointer, content = the bytes written
    so far (meaningful while every write was in bounds) *)
@@ -319,10 +319,14 @@ Definition date_body (y mo d h mi s : Z) : list N :=
 
 (* frac = Some (rep, den, count) when utc.SecFractions holds a value *)
 Definition print_iso_utc (y mo d h mi s : Z) (frac : option (ity * Z * Z)) : outcome (list N) :=
-  let pre := if 10000 <=? y then [c_plus] else [] in
-  let body := date_body y mo d h mi s in
-  (* snprintf(pos, endPos - pos, ...) returns the untruncated length; the stored text is complete iff
-     it is shorter than the space given *)
+  let pre := if 10000 <=? y then [c_plus] else if y <? 0 then [c_minus] else [] in
+  (* absYear = Year < 0 ? 0 - uint64(Year) : uint64(Year) *)
+  let absY := if y <? 0 then cast U64 (0 - cast U64 y) else cast U64 y in
+  let body := pad0 4 (dec absY) ++ [c_minus] ++ fmt_int 2 mo ++ [c_minus] ++ fmt_int 2 d ++ [c_T] ++
+              fmt_int 2 h ++ [c_colon] ++ fmt_int 2 mi ++ [c_colon] ++ fmt_int 2 s in
+  (* snprintf(pos, endPos - pos, ...) returns the untruncated length; outSize < endPos - pos or the
+     "insufficient buffer size" exception *)
+  if BufSize - Z.of_nat (length pre) <=? Z.of_nat (length body) then Err RuntimeError else
   let pos1 := Z.of_nat (length pre) + Z.of_nat (length body) in
   r <- match frac with
        | None => Ok (Some (pos1, pre ++ body))
@@ -367,8 +371,12 @@ Definition tp_print (P : prec) (R : ity) (c : Z) : outcome (list N) :=
   let D := pty P R in
   let TD := DaysT R in
   datePart <- dfloor D TD c ;;                                   (* floor<TDays>(in) *)
-  timePart <- dsub D c TD datePart ;;                            (* in - datePart *)
-  let TP := dcommon D TD in
+  (* TWide(in.time_since_epoch()) % oneDay, + oneDay if negative *)
+  let TP := mkD (common_rep R I64) (d_num D) (d_den D) in
+  oneDay <- dcast (mkD (common_rep R I64) 86400 1) TP 1 ;;
+  wide <- dcast D TP c ;;
+  tp0 <- (if oneDay =? 0 then UB UBOverflow else arith (promote (d_rep TP)) (Z.rem wide oneDay)) ;;
+  timePart <- (if tp0 <? 0 then r <- arith (promote (d_rep TP)) (tp0 + oneDay) ;; Ok (cast (d_rep TP) r) else Ok tp0) ;;
   timeInSec <- dfloor TP SecT timePart ;;                        (* floor<seconds>(timePart).count() *)
   let zt := uac R I64 in
   z <- arith zt (cast zt datePart + cast zt 719468) ;;           (* days + 719468ll *)
@@ -422,6 +430,9 @@ Definition parse_iso_utc (l : list N) : outcome utc_parts :=
   r <- parse_part I64 l None None (Some c_minus) true ;; let '(year, l) := r in
   r <- parse_part I32 l (Some 1) (Some 12) (Some c_minus) false ;; let '(mo, l) := r in
   r <- parse_part I32 l (Some 1) (Some (DaysInMonth mo)) (Some c_T) false ;; let '(day, l) := r in
+  r <- (if (mo =? 2) && (day =? 29) &&
+           negb ((Z.rem year 4 =? 0) && (negb (Z.rem year 100 =? 0) || (Z.rem year 400 =? 0)))
+        then Err InvalidArgument else Ok tt) ;;
   r <- parse_part I32 l (Some 0) (Some 23) (Some c_colon) false ;; let '(hour, l) := r in
   r <- parse_part I32 l (Some 0) (Some 59) (Some c_colon) false ;; let '(mi, l) := r in
   r <- parse_part I32 l (Some 0) (Some 59) None false ;; let '(sec, l) := r in
@@ -444,6 +455,7 @@ Definition parse_iso_utc (l : list N) : outcome utc_parts :=
 
 Definition tp_of_parts (P : prec) (R : ity) (u : utc_parts) : outcome Z :=
   let D := pty P R in
+  if u_year u <? tmin I64 + 400 then Err OutOfRange else
   y <- arith I64 (u_year u - (if u_mo u <=? 2 then 1 else 0)) ;;  (* utc.Year - (utc.Month <= 2) *)
   let m := cast U32 (u_mo u) in
   let d := cast U32 (u_day u) in
@@ -458,17 +470,29 @@ Definition tp_of_parts (P : prec) (R : ity) (u : utc_parts) : outcome Z :=
   hi <- cdiv I64 (tmax I64) 146097 ;;
   lo <- cdiv I64 (tmin I64) 146097 ;;
   if (hi <? era) || (era <? lo) then Err OutOfRange else
+  off <- arith I32 (cast I32 doe - 719468) ;;                    (* dayInEra *)
   e1 <- arith I64 (era * 146097) ;;
-  off <- arith I32 (cast I32 doe - 719468) ;;
+  lim <- arith I64 (tmin I64 - off) ;;
+  if (off <? 0) && (e1 <? lim) then Err OutOfRange else
   days <- arith I64 (e1 + off) ;;
   h1 <- arith I64 (u_hour u * 3600) ;; m1 <- arith I64 (u_min u * 60) ;;
   t1 <- arith I64 (h1 + m1) ;; time <- arith I64 (t1 + u_sec u) ;;
-  tp <- safe_add_tp D 0 SecT time ;;
-  tp <- (match u_frac u with
-         | Some ns => r <- dround NsT D ns ;; safe_add_tp D tp D r
-         | None => Ok tp
-         end) ;;
-  safe_add_tp D tp (mkD I64 86400 1) days.
+  if 0 <=? days then
+    tp <- safe_add_tp D 0 SecT time ;;
+    tp <- (match u_frac u with
+           | Some ns => r <- dround NsT D ns ;; safe_add_tp D tp D r
+           | None => Ok tp
+           end) ;;
+    safe_add_tp D tp (mkD I64 86400 1) days
+  else
+    d1 <- arith I64 (days + 1) ;;
+    tp <- safe_add_tp D 0 (mkD I64 86400 1) d1 ;;
+    tp <- (match u_frac u with
+           | Some ns => r <- dround NsT D ns ;; safe_add_tp D tp D r
+           | None => Ok tp
+           end) ;;
+    back <- arith I64 (time - 86400) ;;
+    safe_add_tp D tp SecT back.
 
 Definition tp_parse (P : prec) (R : ity) (l : list N) : outcome Z :=
   u <- parse_iso_utc l ;; tp_of_parts P R u.
@@ -484,8 +508,8 @@ Definition print_dur_part (D : dty) (X : Z) (isSeconds : bool) (suffix : N) (st 
   timePart <- dcast D PT timeLeft ;;
   if negb (timePart =? 0) || (isSeconds && negb (timeLeft =? 0)) then
     val <- (if is_signed R then
-              if timePart =? tmin I64 then Ok 9223372036854775808
-              else a <- arith (promote R) (Z.abs timePart) ;; Ok (cast U64 a)
+              (* timePart.count() < 0 ? 0 - uint64(count) : uint64(count) *)
+              if timePart <? 0 then Ok (cast U64 (0 - cast U64 timePart)) else Ok (cast U64 timePart)
             else Ok (cast U64 timePart)) ;;
     let ds := to_chars val in
     if BufSize - pos <? Z.of_nat (length ds) then Err RuntimeError else   (* to_chars: value_too_large *)
@@ -564,7 +588,7 @@ Definition parse_next_part (D : dty) (l : list N) (isDatePart isNegative : bool)
           let '(sym', rest', dur') := r in
           if isNegative then
             if value <=? 9223372036854775808 then
-              nv <- arith I64 (- cast I64 value) ;;
+              nv <- (if value =? 9223372036854775808 then Ok (tmin I64) else arith I64 (- cast I64 value)) ;;
               t <- transform_to_duration D I64 nv sym' isDatePart ;;
               d2 <- safe_add_dur D dur' D t ;; Ok (rest', d2)
             else Err OutOfRange
